@@ -98,6 +98,12 @@ where
                     }
                     return Some(state);
                 }
+                #[cfg(terohuttunen_proto_vulcan_verif)]
+                Stream::Lazy(lazy_stream) if !crate::verif::tick_next() => {
+                    // verification hook: the step budget set by the harness is exhausted
+                    *stream = Stream::Lazy(lazy_stream);
+                    return None;
+                }
                 Stream::Lazy(LazyStream(lazy)) => *stream = self.engine.step(self, *lazy),
                 Stream::Cons(state, lazy_stream) => {
                     *stream = Stream::Lazy(lazy_stream);
@@ -115,6 +121,12 @@ where
     pub fn peek<'a>(&self, stream: &'a mut Stream<U, E>) -> Option<&'a Box<State<U, E>>> {
         loop {
             match stream {
+                #[cfg(terohuttunen_proto_vulcan_verif)]
+                Stream::Lazy(_) if !crate::verif::tick_inner() => {
+                    // verification hook: the inner step cap is exhausted
+                    *stream = Stream::Empty;
+                    return None;
+                }
                 Stream::Lazy(_) => {
                     if let Stream::Lazy(LazyStream(lazy)) = std::mem::replace(stream, Stream::Empty)
                     {
@@ -132,6 +144,11 @@ where
         loop {
             match std::mem::replace(stream, Stream::Empty) {
                 Stream::Empty => return None,
+                #[cfg(terohuttunen_proto_vulcan_verif)]
+                Stream::Lazy(_) if !crate::verif::tick_inner() => {
+                    // verification hook: the inner step cap is exhausted
+                    return None;
+                }
                 Stream::Lazy(LazyStream(lazy)) => {
                     *stream = self.engine.step(self, *lazy);
                 }
